@@ -6,6 +6,26 @@ ALL = ["C%02d" % i for i in range(1, 20)]
 
 # id -> (category, technique, level text, level note, design ref)
 CLAIMED = {
+ "C10": ("exploration",
+         "property-based testing: crash-oracle over arbitrary/mutated strings + grammar-based generation with a reference renderer (round-trip of the documented template grammar)",
+         "Totality: arbitrary Unicode strings, strings over the template alphabet and grammar-generated templates with random character edits go through with_template()/template() under catch_unwind. Fidelity: templates are generated from the documented grammar as a list of parts (literals with doubled braces, '{'+whitespace, newlines, placeholders with align/width/!/style over harness-registered custom keys, state-independent built-ins and unknown keys, widths up to 2^32) and the lines captured from a 65535-column terminal must equal the in-order concatenation of the parts' reference expansions, line by line. Search only.",
+         "Trusted: harness reference renderer (model.rs pad reference, c10.rs); colours disabled so styles are transparent; literals without C0 controls.",
+         "DESIGN.md 3 C10"),
+ "C12": ("exploration",
+         "property-based testing against a cell-wise reference implementation of a padded/truncating field",
+         "Contents built from ASCII, multi-byte single-width, double-width and SGR-wrapped chunks are rendered through {msg}/{prefix}/a custom key with every alignment, width (around the content width, small, any u16) and truncation flag, and through literal{wide_msg}literal on terminals of 1..200 columns; the output is compared with a reference working on (character, columns) cells: exact width and padding side when it fits, unchanged when too wide without '!', the cells inside the kept window with '!'.",
+         "Trusted: unicode-width/console column measurement (the same tables the crate uses), the reference in model.rs. Slack accepted: odd column of centre alignment on either side; W-1 columns where a double-width character straddles the cut; trailing padding of a line-final wide_msg may be trimmed.",
+         "DESIGN.md 3 C12"),
+ "C13": ("exploration",
+         "bounded-exhaustive sweep + property-based testing; rendered bar parsed back into (filled, partial, background) cells and checked against the stated geometry laws",
+         "Sweep: 8 character sets x width 0..=40 (thorough 128) x len 0..=40 (128) x pos 0..=len+2, every point checked for cell count floor(N/c), filled == floor(fraction*cells) (library's own f32 fraction, 1 ulp), empty at 0, full iff pos >= len, exactly one partial cell from the configured set otherwise, field padded to N, and monotonicity along pos. Random: sets of 2..=10 distinct clusters of 1 or 2 columns, widths to 65535, lengths to u64::MAX, wide_bar between literals (with multi-byte/double-width text) on terminals 1..300: line width == W - (avail mod c).",
+         "Trusted: parse-back of distinct clusters; f32 tolerance of one ulp on the product; 'full only if pos>=len' asserted for len <= 2^20.",
+         "DESIGN.md 3 C13"),
+ "C14": ("exploration",
+         "property-based testing with a crash oracle over generated builder-call sequences and bar states (catch_unwind per builder call and per draw)",
+         "1-5 builder calls (with_template/template over all documented keys, tick_chars, tick_strings, progress_chars with 0..6 clusters of width 0/1/2 mixed, with_key), each under catch_unwind: a panic there is the allowed explicit rejection, documented unrenderable configurations must be rejected there, and any style that was returned is drawn (tick, inc, println, finish/abandon, drop) for position/length extremes, 1..200 columns, virtual elapsed times up to 49 days, plus get_tick_str for tick values up to u64::MAX - none of which may unwind.",
+         "Trusted: catch_unwind + panic hook; widths measured per char (default features).",
+         "DESIGN.md 3 C14"),
  "C15": ("exploration",
          "property-based testing (proptest) against reference formatters + bounded-exhaustive unit-boundary sweep",
          "Generated u64 / f64 bit patterns x precision / Duration pairs are formatted by the public wrappers and compared with independent reference formatters written from the statement (comma grouping, std fixed precision, largest-fitting-prefix with two decimals, [Dd ]HH:MM:SS, the HumanDuration rounding rule in exact integer nanoseconds) plus monotonicity along sorted durations; every unit boundary +-{1ns..1s} is enumerated. Search, not proof: absence of a counterexample in ~200k (quick) / ~6M (thorough) cases.",
